@@ -27,6 +27,9 @@ pub struct Case {
     pub mur: Option<String>,
     pub flag119: Option<String>,
     pub text: String,
+    /// MT202 only: which customer fields the cover sequence (sequence B) carries ("none", "50K", "59", "50K+59")
+    #[serde(default)]
+    pub cov: Option<String>,
 }
 
 const F72: &[(&str, &str)] = &[
@@ -136,6 +139,18 @@ pub fn judge(case: &Case, l: &mut Local, peers: Option<&[(String, Observed)]>) {
             v(l, &ty, "return-only-classified-reject", &at_for("REJT"), format!("{ty}: a message carrying only a return code is classified as reject"), case);
         }
     }
+    // MT202: the cover sequence makes a cover message (the crate documents "Sequence B is present with
+    // COV fields"): any customer field of sequence B classifies, none of them (and no COV word) does not
+    if let Some(cov) = &case.cov {
+        let expected = cov != "none";
+        let cov_word = f72.map(|t| t.contains("/COV")).unwrap_or(false) || case.flag119.as_deref() == Some("COV");
+        if expected && !o.cover {
+            v(l, &ty, "cover-sequence-not-classified", cov, format!("{ty}: sequence B carries {cov} but is_cover_message is false"), case);
+        }
+        if !expected && !cov_word && o.cover {
+            v(l, &ty, "classified-cover-without-sequence", cov, format!("{ty}: no sequence B and no cover word, but is_cover_message is true"), case);
+        }
+    }
     // method implied by the predicates
     let implied = if o.reject {
         "reject"
@@ -228,6 +243,31 @@ fn rewrite(text: &str, f72: Option<&str>, mur: Option<&str>, flag: Option<&str>)
     Some(out)
 }
 
+/// MT202: replace whatever follows sequence A (sequence B starts at the first field 50a) by the given
+/// customer fields of the cover sequence
+fn with_cover_sequence(text: &str, cov: &str) -> Option<String> {
+    let blocks = tok::split_blocks(text)?;
+    let mut out = String::new();
+    for (id, content) in &blocks {
+        if id == "4" {
+            let mut toks = tok::tokenize(content).fields;
+            if let Some(i) = toks.iter().position(|t| t.tag.starts_with("50")) {
+                toks.truncate(i);
+            }
+            if cov.contains("50K") {
+                toks.push(tok::Token { tag: "50K".into(), content: "/ACC1\nORDERING CUSTOMER".into() });
+            }
+            if cov.contains("59") {
+                toks.push(tok::Token { tag: "59".into(), content: "/ACC2\nBENEFICIARY CUSTOMER".into() });
+            }
+            out.push_str(&format!("{{4:\n{}\n-}}\n", tok::render(&toks, false, false)));
+        } else {
+            out.push_str(&format!("{{{id}:{content}}}\n"));
+        }
+    }
+    Some(out)
+}
+
 pub fn run(cfg: &Config) -> i32 {
     let started = std::time::Instant::now();
     let c = Corpus::load(&cfg.verif_dir);
@@ -277,12 +317,20 @@ pub fn run(cfg: &Config) -> i32 {
             }
             let f72 = if *has72 { Some(t72) } else { None };
             let Some(nt) = rewrite(text, f72, mur, flag) else { continue };
-            let case = Case { mt: mt.clone(), f72: f72.map(|s| s.to_string()), mur: mur.map(|s| s.to_string()), flag119: flag.map(|s| s.to_string()), text: nt };
+            let case = Case { mt: mt.clone(), f72: f72.map(|s| s.to_string()), mur: mur.map(|s| s.to_string()), flag119: flag.map(|s| s.to_string()), text: nt, cov: None };
             let lab = format!("{}:{}", if supporting(mt) { "supporting" } else { "other" }, F72[a].0);
             if l.want_sample(&lab) {
                 l.sample(&lab, json!({"mt": mt, "f72": case.f72, "mur": case.mur, "flag119": case.flag119}));
             }
             judge(&case, l, None);
+            if mt == "202" && b == 0 {
+                for cov in ["none", "50K", "59", "50K+59"] {
+                    if let Some(t2) = with_cover_sequence(&case.text, cov) {
+                        let c2 = Case { text: t2, cov: Some(cov.to_string()), ..case.clone() };
+                        judge(&c2, l, None);
+                    }
+                }
+            }
             if supporting(mt)
                 && *has72
                 && let Some(o) = observe(&case)
